@@ -115,6 +115,8 @@ var SupervisorSchema = ssam.BasicSchema.Merge(
 		// errors
 
 		ssS.ErrWorker: {
+			// every error of a burst has to reach ErrWorkerState
+			Multi:   true,
 			Require: S{ssS.Exception},
 			Add:     S{ssS.NormalizingPool, ssS.Heartbeat},
 		},
